@@ -163,6 +163,43 @@ func genC08() {
 		return "other:" + strings.Join(strings.Fields(exprText(e)), " ")
 	})), "resolverCache.Get, "+g.pos(rget)+": every return statement")
 	g.def("resolver_get_locked", "bool", c08Bool(c08Locked(rget)), "resolverCache.Get starts with Lock / defer Unlock")
+	// the key of the resolver trie is the index list AS GIVEN (its order is an input of the resolution): find, fill
+	// and newPkgResolver all take Get's own slice parameter
+	var rkey []string
+	if rget != nil && rget.Type.Params != nil {
+		param := ""
+		for _, f := range rget.Type.Params.List {
+			if strings.HasPrefix(exprText(f.Type), "[]") && len(f.Names) == 1 {
+				param = f.Names[0].Name
+			}
+		}
+		recv := c08Recv(rget)
+		ast.Inspect(rget.Body, func(n ast.Node) bool {
+			c, ok := n.(*ast.CallExpr)
+			if !ok {
+				return true
+			}
+			var what string
+			var arg ast.Expr
+			switch f := exprText(c.Fun); {
+			case f == recv+".find" && len(c.Args) == 1:
+				what, arg = "find", c.Args[0]
+			case f == recv+".fill" && len(c.Args) == 2:
+				what, arg = "fill", c.Args[0]
+			case f == "newPkgResolver" && len(c.Args) == 2:
+				what, arg = "build", c.Args[1]
+			default:
+				return true
+			}
+			if param != "" && exprText(arg) == param {
+				rkey = append(rkey, what+":the-list-as-given")
+			} else {
+				rkey = append(rkey, what+":other:"+strings.Join(strings.Fields(exprText(arg)), " "))
+			}
+			return true
+		})
+	}
+	g.def("resolver_get_key", "list string", coqStrList(rkey), "resolverCache.Get: what find / newPkgResolver / fill are called with")
 
 	dget := findFunc(caches, "disqualifyCache", "Get")
 	g.def("dq_get_returns", "list string", coqStrList(c08Returns(dget, func(e ast.Expr) string {
@@ -228,5 +265,199 @@ func genC08() {
 		})
 	}
 	g.def("compare_ends_with_names", "bool", c08Bool(last), "comparePackages, "+g.pos(cp)+": the comparator ends with cmp.Compare on the two names")
+	genC08Index(g)
 	g.write()
+}
+
+// The index cache and GetRepositoryIndexes (pkg/apk/apk/index.go), as Model/CachesIndex.v transcribes them:
+//   - indexCache.get, local branch: the modification time is looked up and recorded under THE SAME key the
+//     parsed result is stored and loaded under, and the file is re-read when there is no recorded time or the
+//     file's time is After it;
+//   - GetRepositoryIndexes: a slice with one slot per repository line, goroutine i writes slot i, nil slots
+//     are deleted after Wait, that slice is returned.
+func genC08Index(g *gen) {
+	const indexGo = "pkg/apk/apk/index.go"
+	norm := func(n ast.Node) string { return strings.Join(strings.Fields(exprText(n)), " ") }
+
+	get := findFunc(indexGo, "indexCache", "get")
+	var modKeys []string
+	cond := "missing"
+	if get != nil {
+		recv := c08Recv(get)
+		// the local branch = the block holding `before, ok := <recv>.modtimes[..]`; the key of the stored results =
+		// the first argument of every <recv>.store / <recv>.load in it
+		{
+			resKeys := map[string]bool{}
+			var outer *ast.BlockStmt
+			ast.Inspect(get.Body, func(n ast.Node) bool {
+				b, ok := n.(*ast.BlockStmt)
+				if !ok {
+					return true
+				}
+				uses := false
+				for _, st := range b.List {
+					if as, ok := st.(*ast.AssignStmt); ok {
+						for _, r := range as.Rhs {
+							if ix, ok := r.(*ast.IndexExpr); ok && exprText(ix.X) == recv+".modtimes" {
+								uses = true
+							}
+						}
+					}
+				}
+				if uses && outer == nil {
+					outer = b
+				}
+				return true
+			})
+			if outer == nil {
+				fail("%s: indexCache.get: no `before, ok := %s.modtimes[..]`", indexGo, recv)
+			} else {
+				ast.Inspect(outer, func(n ast.Node) bool {
+					if c, ok := n.(*ast.CallExpr); ok && len(c.Args) >= 1 {
+						if f := exprText(c.Fun); f == recv+".store" || f == recv+".load" {
+							resKeys[norm(c.Args[0])] = true
+						}
+					}
+					return true
+				})
+				ast.Inspect(outer, func(n ast.Node) bool {
+					if ix, ok := n.(*ast.IndexExpr); ok && exprText(ix.X) == recv+".modtimes" {
+						k := norm(ix.Index)
+						if len(resKeys) == 1 && resKeys[k] {
+							modKeys = append(modKeys, "entry-key")
+						} else {
+							modKeys = append(modKeys, "other:"+k)
+						}
+					}
+					return true
+				})
+				// the refresh condition: `before, ok := modtimes[K]` ... `if !ok || mod.After(before)` with mod := <x>.ModTime()
+				var before, okv, mod string
+				for _, st := range outer.List {
+					as, ok := st.(*ast.AssignStmt)
+					if !ok || len(as.Rhs) != 1 {
+						continue
+					}
+					if ix, ok := as.Rhs[0].(*ast.IndexExpr); ok && exprText(ix.X) == recv+".modtimes" && len(as.Lhs) == 2 {
+						before, okv = exprText(as.Lhs[0]), exprText(as.Lhs[1])
+					}
+					if c, ok := as.Rhs[0].(*ast.CallExpr); ok && len(as.Lhs) == 1 {
+						if sel, ok := c.Fun.(*ast.SelectorExpr); ok && sel.Sel.Name == "ModTime" {
+							mod = exprText(as.Lhs[0])
+						}
+					}
+				}
+				for _, st := range outer.List {
+					is, ok := st.(*ast.IfStmt)
+					if !ok {
+						continue
+					}
+					writes := false
+					ast.Inspect(is.Body, func(n ast.Node) bool {
+						if as, ok := n.(*ast.AssignStmt); ok && len(as.Lhs) == 1 {
+							if ix, ok := as.Lhs[0].(*ast.IndexExpr); ok && exprText(ix.X) == recv+".modtimes" {
+								writes = true
+							}
+						}
+						return true
+					})
+					if !writes {
+						continue
+					}
+					if norm(is.Cond) == "!"+okv+" || "+mod+".After("+before+")" && before != "" && mod != "" {
+						cond = "no-recorded-time-or-file-time-after-recorded"
+					} else {
+						cond = "other:" + norm(is.Cond)
+					}
+				}
+			}
+		}
+	}
+	g.def("index_modtimes_keys", "list string", coqStrList(modKeys),
+		"indexCache.get, "+g.pos(get)+": every index into the modtimes map, compared with the key the parsed results are stored / loaded under")
+	g.def("index_refresh_condition", "string", coqStr(cond), "indexCache.get: the condition under which a local index file is read again")
+
+	gri := findFunc(indexGo, "", "GetRepositoryIndexes")
+	var collect []string
+	if gri != nil {
+		var slice, rangeKey, rangeX string
+		// indexes := make([]NamedIndex, len(<repos>))
+		ast.Inspect(gri.Body, func(n ast.Node) bool {
+			as, ok := n.(*ast.AssignStmt)
+			if !ok || len(as.Lhs) != 1 || len(as.Rhs) != 1 || slice != "" {
+				return true
+			}
+			if c, ok := as.Rhs[0].(*ast.CallExpr); ok && exprText(c.Fun) == "make" && len(c.Args) == 2 {
+				if l, ok := c.Args[1].(*ast.CallExpr); ok && exprText(l.Fun) == "len" && len(l.Args) == 1 {
+					slice, rangeX = exprText(as.Lhs[0]), exprText(l.Args[0])
+					collect = append(collect, "slots:one-per-line")
+				}
+			}
+			return true
+		})
+		if slice == "" {
+			collect = append(collect, "other:no make(.., len(lines))")
+		}
+		// for <i>, _ := range <repos> { ... go func: <slice>[<i>] = ... }
+		wrote := false
+		ast.Inspect(gri.Body, func(n ast.Node) bool {
+			rs, ok := n.(*ast.RangeStmt)
+			if !ok || exprText(rs.X) != rangeX || rs.Key == nil {
+				return true
+			}
+			rangeKey = exprText(rs.Key)
+			ast.Inspect(rs.Body, func(m ast.Node) bool {
+				fl, ok := m.(*ast.FuncLit)
+				if !ok {
+					return true
+				}
+				ast.Inspect(fl.Body, func(k ast.Node) bool {
+					if as, ok := k.(*ast.AssignStmt); ok && len(as.Lhs) == 1 {
+						if ix, ok := as.Lhs[0].(*ast.IndexExpr); ok && exprText(ix.X) == slice {
+							if exprText(ix.Index) == rangeKey {
+								collect = append(collect, "write:slot-of-own-line")
+							} else {
+								collect = append(collect, "other:write "+norm(as.Lhs[0]))
+							}
+							wrote = true
+						}
+					}
+					return true
+				})
+				return false
+			})
+			return false
+		})
+		if !wrote {
+			collect = append(collect, "other:no goroutine writes a slot")
+		}
+		// <slice> = slices.DeleteFunc(<slice>, func(x) bool { return x == nil })
+		deleted := false
+		for _, st := range gri.Body.List {
+			as, ok := st.(*ast.AssignStmt)
+			if !ok || len(as.Lhs) != 1 || len(as.Rhs) != 1 || exprText(as.Lhs[0]) != slice {
+				continue
+			}
+			if c, ok := as.Rhs[0].(*ast.CallExpr); ok && exprText(c.Fun) == "slices.DeleteFunc" && len(c.Args) == 2 && exprText(c.Args[0]) == slice {
+				if fl, ok := c.Args[1].(*ast.FuncLit); ok && len(fl.Body.List) == 1 && fl.Type.Params != nil && len(fl.Type.Params.List) == 1 && len(fl.Type.Params.List[0].Names) == 1 {
+					if r, ok := fl.Body.List[0].(*ast.ReturnStmt); ok && len(r.Results) == 1 && norm(r.Results[0]) == fl.Type.Params.List[0].Names[0].Name+" == nil" {
+						collect = append(collect, "holes:nil-deleted")
+						deleted = true
+					}
+				}
+			}
+		}
+		if !deleted {
+			collect = append(collect, "other:no DeleteFunc(nil)")
+		}
+		if n := len(gri.Body.List); n > 0 {
+			if r, ok := gri.Body.List[n-1].(*ast.ReturnStmt); ok && len(r.Results) == 2 && exprText(r.Results[0]) == slice && exprText(r.Results[1]) == "nil" {
+				collect = append(collect, "returns:the-slots")
+			} else {
+				collect = append(collect, "other:last statement "+norm(gri.Body.List[n-1]))
+			}
+		}
+	}
+	g.def("get_indexes_collect", "list string", coqStrList(collect),
+		"GetRepositoryIndexes, "+g.pos(gri)+": how the per-repository results are collected into the returned list")
 }
